@@ -1,0 +1,185 @@
+//! Verification harness for property C07 (test-only; see /verif): runs the conductor's real
+//! `reconstruct_blocks_from_verified_blobs` on Celestia metadata / rollup blobs given as raw
+//! protobuf bytes (as produced by the sequencer-side harness `app::verif_c07`).
+//!
+//! It lives below `verify` because `VerifiedBlobs` can only be constructed there.
+//!
+//! Script (file named by `VERIF_IN`, observations to `VERIF_OUT`):
+//! * `case <label>` -> printed verbatim
+//! * `recon rollup=<rK|hex64> metas=<hex,..|-> blobs=<hex,..|->` -> decodes every item with
+//!   `SubmittedMetadata::try_from_raw` / `SubmittedRollupData::try_from_raw` (undecodable items are
+//!   left out, as the conductor's decode step does), reconstructs for the given rollup id, prints
+//!   `recon metas=<ok|err,..> blobs=<ok|err,..> out=<hash16:n:digest16,..|->` (blocks sorted).
+//!
+//! Run with:
+//! `cargo test --offline -p astria-conductor --features verif --lib celestia::verify::verif_c07::drive -- --exact`
+#![allow(clippy::pedantic, clippy::arithmetic_side_effects, dead_code)]
+
+use std::collections::HashMap;
+
+use astria_core::{
+    generated::astria::sequencerblock::v1 as raw,
+    primitive::v1::RollupId,
+    sequencerblock::v1::{
+        SubmittedMetadata,
+        SubmittedRollupData,
+    },
+};
+use prost::Message as _;
+use sha2::{
+    Digest as _,
+    Sha256,
+};
+
+use super::{
+    super::reconstruct::reconstruct_blocks_from_verified_blobs,
+    VerifiedBlobs,
+};
+
+fn hex16(bytes: &[u8]) -> String {
+    hex::encode(bytes)[..16].to_string()
+}
+
+/// sha256 over the length-prefixed (u64 LE) items, first 16 hex characters (same as the
+/// sequencer-side harness).
+fn list_digest(items: &[bytes::Bytes]) -> String {
+    let mut hasher = Sha256::new();
+    for item in items {
+        hasher.update((item.len() as u64).to_le_bytes());
+        hasher.update(item);
+    }
+    hex16(&hasher.finalize())
+}
+
+fn parse_rollup(token: &str) -> Result<RollupId, String> {
+    if let Some(number) = token.strip_prefix('r') {
+        if let Ok(byte) = number.parse::<u8>() {
+            return Ok(RollupId::new([byte; 32]));
+        }
+    }
+    let bytes = hex::decode(token).map_err(|e| e.to_string())?;
+    let array: [u8; 32] = bytes.try_into().map_err(|_| "rollup id length".to_string())?;
+    Ok(RollupId::new(array))
+}
+
+fn list(value: &str) -> Vec<&str> {
+    if value == "-" || value.is_empty() {
+        vec![]
+    } else {
+        value.split(',').collect()
+    }
+}
+
+fn recon(args: &[&str]) -> Result<String, String> {
+    let get = |key: &str| -> Result<&str, String> {
+        args.iter()
+            .find_map(|token| token.strip_prefix(key).and_then(|rest| rest.strip_prefix('=')))
+            .ok_or_else(|| format!("missing {key}="))
+    };
+    let rollup_id = parse_rollup(get("rollup")?)?;
+    let mut meta_verdicts = vec![];
+    let mut header_blobs = HashMap::new();
+    for item in list(get("metas")?) {
+        let decoded = hex::decode(item)
+            .ok()
+            .and_then(|bytes| raw::SubmittedMetadata::decode(bytes.as_slice()).ok())
+            .and_then(|raw_meta| SubmittedMetadata::try_from_raw(raw_meta).ok());
+        match decoded {
+            Some(meta) => {
+                meta_verdicts.push("ok");
+                header_blobs.insert(*meta.block_hash(), meta);
+            }
+            None => meta_verdicts.push("err"),
+        }
+    }
+    let mut blob_verdicts = vec![];
+    let mut rollup_blobs = vec![];
+    for item in list(get("blobs")?) {
+        let decoded = hex::decode(item)
+            .ok()
+            .and_then(|bytes| raw::SubmittedRollupData::decode(bytes.as_slice()).ok())
+            .and_then(|raw_blob| SubmittedRollupData::try_from_raw(raw_blob).ok());
+        match decoded {
+            Some(blob) => {
+                blob_verdicts.push("ok");
+                rollup_blobs.push(blob);
+            }
+            None => blob_verdicts.push("err"),
+        }
+    }
+    let verified = VerifiedBlobs {
+        celestia_height: 1,
+        header_blobs,
+        rollup_blobs,
+    };
+    let mut out: Vec<String> = reconstruct_blocks_from_verified_blobs(verified, rollup_id)
+        .into_iter()
+        .map(|block| {
+            format!(
+                "{}:{}:{}",
+                hex16(block.block_hash.as_bytes()),
+                block.transactions.len(),
+                list_digest(&block.transactions)
+            )
+        })
+        .collect();
+    out.sort();
+    let show = |items: Vec<&str>| {
+        if items.is_empty() {
+            "-".to_string()
+        } else {
+            items.join(",")
+        }
+    };
+    Ok(format!(
+        "recon metas={} blobs={} out={}",
+        show(meta_verdicts),
+        show(blob_verdicts),
+        if out.is_empty() {
+            "-".to_string()
+        } else {
+            out.join(",")
+        }
+    ))
+}
+
+#[test]
+fn drive() {
+    let Ok(input_path) = std::env::var("VERIF_IN") else {
+        return;
+    };
+    let script = std::fs::read_to_string(&input_path).expect("VERIF_IN should be readable");
+    std::panic::set_hook(Box::new(|_| {}));
+    let mut out = String::new();
+    for line in script.lines() {
+        let tokens: Vec<&str> = line.split_whitespace().collect();
+        let Some((&op, args)) = tokens.split_first() else {
+            continue;
+        };
+        match op {
+            "case" => {
+                out.push_str(line.trim());
+                out.push('\n');
+            }
+            "recon" => {
+                let result = std::panic::catch_unwind(|| recon(args));
+                match result {
+                    Ok(Ok(observation)) => out.push_str(&observation),
+                    Ok(Err(_)) => out.push_str("recon parseerr"),
+                    Err(_) => out.push_str("recon panic"),
+                }
+                out.push('\n');
+            }
+            other if other.starts_with('#') => {}
+            other => {
+                out.push_str(other);
+                out.push_str(" parseerr\n");
+            }
+        }
+    }
+    let _ = std::panic::take_hook();
+    match std::env::var("VERIF_OUT") {
+        Ok(output_path) => std::fs::write(&output_path, &out).expect("VERIF_OUT should be writable"),
+        Err(_) => print!("{out}"),
+    }
+}
